@@ -825,7 +825,7 @@ fn evaluate_cpp(case: &Case, graph: &crate::props::c07::Graph, env: &Env) -> Out
 /// with its own virtual method, member, array element, pointer, template argument).
 fn cpp_grid() -> Vec<Case> {
     use crate::props::c07::{Arg, FieldKind, Graph, Node, NodeKind};
-    let node = |kind: NodeKind, bases: Vec<usize>, fields: Vec<FieldKind>, vm: bool, dtor: bool| Node { kind, bases, virtual_bases: false, fields, virtual_method: vm, dtor };
+    let node = |kind: NodeKind, bases: Vec<usize>, fields: Vec<FieldKind>, vm: bool, dtor: bool| Node { kind, bases, virtual_bases: false, fields, virtual_method: vm, dtor, tbases: vec![] };
     let mut v = vec![];
     for h_kind in 0..4usize {
         for mode in [HideMode::OpaqueOption, HideMode::BlocklistType, HideMode::BlocklistAndOpaque] {
